@@ -14,11 +14,11 @@ var errVDeadline = errors.New("verif: i/o timeout (deadline exceeded)")
 // bytes arrive or a deadline in the past is set.
 type vBlockingTransport struct {
 	vTransport
-	arrived  chan struct{}
-	dl       chan struct{}
-	past     bool
-	setCalls int
-	clears   int
+	arrived    chan struct{}
+	dl         chan struct{}
+	past       bool
+	setCalls   int
+	clears     int
 	syncWrites bool
 }
 
